@@ -1,18 +1,92 @@
 /-
-  Property C10 — PLACEHOLDER while the full theorem file (lean/stmts/C10.lean.txt) is being proved.
+  Property C10 — the ITS codec is exact canonical Solidity ABI and never misdecodes.
+  Statements are FIXED: prove them exactly as stated (helper lemmas go above them or in Cgp/Proofs/C10.lean).
+  A machine-checked proof of the generic round trip for an earlier version of `encAux`/`parseAux` is in
+  HINT_abi_roundtrip.lean.txt (same definitions, namespace `Abi`): reuse its structure.
 -/
 import Cgp.Abi
+import Cgp.Proofs.C10
 namespace Cgp.Props.C10
 open Cgp Cgp.Abi
 
-/-- strict sequence decoding accepts only canonical encodings: the result re-encodes to exactly the input -/
-theorem decodeSeq_reencodes (ks : List Bool) (b : Bytes) (fs : List Field) (h : decodeSeq ks b = some fs) :
-    encodeSeq fs = b := by
-  unfold decodeSeq at h
-  split at h
-  · simp at h
-  · split at h
-    · simp at h; subst h; assumption
-    · simp at h
+/-! ### the generic head/tail codec -/
+
+/-- lenient parsing inverts encoding, for EVERY list of fields -/
+theorem parse_encode (fs : List Field) (hwf : ∀ f ∈ fs, f.WF) (hsz : (encodeSeq fs).length < 256 ^ 32) :
+    parseAux (fs.map kindOf) (encodeSeq fs) (encodeSeq fs) = some fs := by
+  exact Cgp.Proofs.C10.parse_encode fs hwf hsz
+
+/-- strict decoding inverts encoding … -/
+theorem decodeSeq_encodeSeq (fs : List Field) (hwf : ∀ f ∈ fs, f.WF) (hsz : (encodeSeq fs).length < 256 ^ 32) :
+    decodeSeq (fs.map kindOf) (encodeSeq fs) = some fs := by
+  exact Cgp.Proofs.C10.decodeSeq_encodeSeq fs hwf hsz
+
+/-- … and accepts ONLY canonical encodings: whenever it succeeds, re-encoding the result reproduces the input exactly -/
+theorem decodeSeq_canonical (ks : List Bool) (b : Bytes) (fs : List Field) (h : decodeSeq ks b = some fs) :
+    encodeSeq fs = b ∧ fs.map kindOf = ks ∧ (∀ f ∈ fs, ∀ x, f = .w x → x.length = 32) := by
+  exact Cgp.Proofs.C10.decodeSeq_canonical ks b fs h
+
+/-! ### messages -/
+
+/-- encoding succeeds exactly for representable messages (a negative amount makes the real encoder panic, invalid
+    UTF-8 makes it fail) -/
+theorem encodeMsg_ok_iff (m : Msg) :
+    (∃ b, encodeMsg m = .ok b) ↔
+      (match m with
+       | .transfer t => 0 ≤ t.amount
+       | .deploy d => validUtf8 d.name = true ∧ validUtf8 d.symbol = true) := by
+  exact Cgp.Proofs.C10.encodeMsg_ok_iff m
+
+/-- **round trip**: decoding the encoding of a well-formed message returns the same message (an empty optional byte
+    field reads back as absent) -/
+theorem decodeMsg_encodeMsg (m : Msg) (b : Bytes) (hwf : m.wf) (henc : encodeMsg m = .ok b) (hsz : b.length < 256 ^ 32) :
+    decodeMsg b = .ok m.normalize := by
+  exact Cgp.Proofs.C10.decodeMsg_encodeMsg m b hwf henc hsz
+
+/-- **canonicity**: whenever decoding succeeds, the result is well-formed, normalised, and re-encodes to exactly the input -/
+theorem decodeMsg_canonical (b : Bytes) (m : Msg) (h : decodeMsg b = .ok m) :
+    encodeMsg m = .ok b ∧ m.wf ∧ m.normalize = m := by
+  exact Cgp.Proofs.C10.decodeMsg_canonical b m h
+
+/-- both directions in one statement -/
+theorem decodeMsg_iff (b : Bytes) (m : Msg) (hsz : b.length < 256 ^ 32) :
+    decodeMsg b = .ok m ↔ (m.wf ∧ m.normalize = m ∧ encodeMsg m = .ok b) := by
+  exact Cgp.Proofs.C10.decodeMsg_iff b m hsz
+
+theorem decodeHub_encodeHub (m : HubMsg) (b : Bytes) (hwf : m.wf) (henc : encodeHub m = .ok b) (hsz : b.length < 256 ^ 32) :
+    decodeHub b = .ok m.normalize := by
+  exact Cgp.Proofs.C10.decodeHub_encodeHub m b hwf henc hsz
+
+theorem decodeHub_canonical (b : Bytes) (m : HubMsg) (h : decodeHub b = .ok m) :
+    encodeHub m = .ok b ∧ m.wf ∧ m.normalize = m := by
+  exact Cgp.Proofs.C10.decodeHub_canonical b m h
+
+/-! ### rejections -/
+
+/-- amounts above 2^127-1 are rejected (decoded amounts are always in range) -/
+theorem decoded_amount_in_range (b : Bytes) (t : Transfer) (h : decodeMsg b = .ok (.transfer t)) :
+    0 ≤ t.amount ∧ t.amount < 2 ^ 127 := by
+  exact Cgp.Proofs.C10.decoded_amount_in_range b t h
+
+/-- unsupported message types are rejected: an inner message must be type 0 or 1, a hub message type 3 or 4 -/
+theorem unsupported_types_rejected (b : Bytes) (hlen : 32 ≤ b.length) :
+    (ofBE (b.take 32) ≠ 0 → ofBE (b.take 32) ≠ 1 → ∃ e, decodeMsg b = .error e) ∧
+    (ofBE (b.take 32) ≠ 3 → ofBE (b.take 32) ≠ 4 → ∃ e, decodeHub b = .error e) := by
+  exact Cgp.Proofs.C10.unsupported_types_rejected b hlen
+
+theorem short_input_rejected (b : Bytes) (hlen : b.length < 32) :
+    (∃ e, decodeMsg b = .error e) ∧ (∃ e, decodeHub b = .error e) := by
+  exact Cgp.Proofs.C10.short_input_rejected b hlen
+
+/-- trailing bytes are rejected: nothing that decodes can be extended and still decode to the same message -/
+theorem trailing_bytes_rejected (b extra : Bytes) (m : Msg) (h : decodeMsg b = .ok m) (hne : extra ≠ []) :
+    decodeMsg (b ++ extra) ≠ .ok m := by
+  exact Cgp.Proofs.C10.trailing_bytes_rejected b extra m h hne
+
+/-- non-vacuity: a concrete transfer round-trips -/
+example : decodeMsg (encodeSeq (transferFields ⟨List.replicate 32 7, [1, 2], [3], 5, none⟩)) =
+    .ok (.transfer ⟨List.replicate 32 7, [1, 2], [3], 5, none⟩) := by
+  exact decodeMsg_encodeMsg (.transfer ⟨List.replicate 32 7, [1, 2], [3], 5, none⟩) _
+    ⟨by simp, by decide, by decide⟩ rfl (by simp [encodeSeq, encAux, transferFields, tailOf, word_length, optBytes, padTo32])
 
 end Cgp.Props.C10
